@@ -80,7 +80,54 @@ func facts(repo string, w io.Writer) error {
 		fmt.Fprintf(w, "(* pkg/store/proxy.go ProxyStore.Series: "+d.note+" *)\n", s.ExprString(d.e))
 		fmt.Fprintf(w, "Definition %s %s : bool :=\n  %s.\n", d.name, d.params, e)
 	}
+	if err := eosFacts(repo, w); err != nil {
+		return err
+	}
 	return timerFacts(repo, w)
+}
+
+// eosFacts: how the lazy and the eager receiver decide that a Recv error is the clean end of the
+// stream: `err == io.EOF` (identity) or errors.Is(err, io.EOF) (also errors wrapping io.EOF).
+func eosFacts(repo string, w io.Writer) error {
+	s, err := common.ParseSrc(repo, "pkg/store/proxy_merge.go")
+	if err != nil {
+		return err
+	}
+	for _, d := range []struct{ fn, name string }{{"newLazyRespSet", "recv_eos_lazy"}, {"newEagerRespSet", "recv_eos_eager"}} {
+		fd, err := s.FindFunc(d.fn)
+		if err != nil {
+			return err
+		}
+		var cond ast.Expr
+		ast.Inspect(fd.Body, func(n ast.Node) bool {
+			is, ok := n.(*ast.IfStmt)
+			if !ok || cond != nil || s.ExprString(is.Cond) != "err != nil" {
+				return true
+			}
+			// the first statement of the error branch after cl.Recv(): `if <eos test> { ... return false }`
+			if len(is.Body.List) > 0 {
+				if inner, ok := is.Body.List[0].(*ast.IfStmt); ok && strings.Contains(s.ExprString(inner.Cond), "io.EOF") {
+					cond = inner.Cond
+				}
+			}
+			return true
+		})
+		if cond == nil {
+			return fmt.Errorf("srcfacts: pkg/store/proxy_merge.go: %s: end-of-stream test on the Recv error not found", d.fn)
+		}
+		var body string
+		switch s.ExprString(cond) {
+		case "err == io.EOF", "io.EOF == err":
+			body = "is_eof"
+		case "errors.Is(err, io.EOF)":
+			body = "(is_eof || wraps_eof)"
+		default:
+			return fmt.Errorf("srcfacts: %s: end-of-stream test %q not understood", d.fn, s.ExprString(cond))
+		}
+		fmt.Fprintf(w, "(* pkg/store/proxy_merge.go %s handleRecvResponse: `if %s` => clean end of the store's stream *)\n", d.fn, s.ExprString(cond))
+		fmt.Fprintf(w, "Definition %s (is_eof wraps_eof : bool) : bool :=\n  %s.\n", d.name, body)
+	}
+	return nil
 }
 
 // timerFacts: where the lazy receiver pauses its frame-timeout timer (t.Reset(MaxInt64)) relative to
@@ -267,8 +314,12 @@ func run(raw json.RawMessage) (common.Case, error) {
 		}
 		oQ = common.Some(common.Pair(common.List(ls), pu.CoqStrList(qws)))
 	}
+	var wraps []string
+	for _, s := range in.Stores {
+		wraps = append(wraps, common.Bool(pu.WrapsEOF(s.FailKind)))
+	}
 	c.Coq = common.App("CFail", common.Bool(in.Lazy), common.Nat(in.Buf), pu.CoqStrList(in.WRL), common.Bool(in.Disabled), common.Z(strategy),
-		common.Nat(int(in.Batch)), common.List(scripts), oFrames, pu.CoqStrList(ws), common.Bool(qPartial), oQ)
+		common.Nat(int(in.Batch)), common.List(scripts), common.List(wraps), oFrames, pu.CoqStrList(ws), common.Bool(qPartial), oQ)
 	obs := map[string]any{"ok": res.Err == nil, "warnings": ws, "frames": len(res.Frames),
 		"querier_ok": qr.Err == nil, "querier_warnings": qws, "querier_series": len(qr.Labels)}
 	c.Obs = obs
@@ -457,6 +508,9 @@ func gen(r *rand.Rand, tier string, n int) []any {
 				nTimeout++
 			}
 			s.FailAt = r.Intn(len(s.Frames) + 1) // before the first frame ... after the last one
+			if s.Fail != "timeout" {
+				s.FailKind = common.Pick(r, "", "", "grpc", "canceled", "deadline", "ueof", "wrapueof", "wrapeof", "wrapeof")
+			}
 			anyFail = true
 		}
 		if !anyFail && r.Intn(6) != 0 && len(in.Stores) > 0 {
